@@ -869,6 +869,84 @@ def run(ctx):
                               f"permanent ratios (10 000 sweeps give about 0.1)", dict(payload, max_abs_err=worst), True)
     stats["mc_blocks"] = mc_cases
 
+    # ------------------------------------------------------------------ E3: an equal-weight block of MORE than 12 paths inside a W
+    # that is not equal-weight as a whole (one small wire-fencing block next to it): the closed form (quick_prob) is exact for
+    # any size (theorems C02_quick_prob_eq_Pspec_staircase / C02_Pspec_blocks), so P must equal the permanent ratios to rounding
+    # and no Monte-Carlo draw may be involved.  Oracle: exact integer permanents of 0/1 staircases (product formula on the sorted
+    # supports, minors are staircases again), independent of quick_prob's column sweep.
+    from fractions import Fraction as Fr
+
+    def stair_perm(ks):
+        p = 1
+        for i, k in enumerate(sorted(ks)):
+            if k - i <= 0:
+                return 0
+            p *= k - i
+        return p
+
+    eq_cases = 0
+    for m in (13, 14, 16):
+        for rep in range(1 if quick else 4):
+            small = 2 + rep % 2                       # the non-uniform block: 2 or 3 rows, full, random weights
+            n = 1 + small + m + 1
+            ks = sorted(min(m, r + 1 + rng.randint(0, 4)) for r in range(m))
+            ks[-1] = m
+            for i in range(m):
+                ks[i] = min(m, max(ks[i], i + 2))         # no tight prefix: the m paths form ONE block
+            mult = [rng.choice((1, 1, 2, 3)) for _ in range(m)]
+            W = [[0] * n for _ in range(n)]
+            W[0][0] = 1
+            while True:
+                for r in range(1, small + 1):
+                    for c in range(1, small + 1):
+                        W[r][c] = rng.randint(1, 9)
+                if any(len(set(W[r][1:small + 1])) > 1 for r in range(1, small + 1)):
+                    break
+            for r in range(m):
+                for c in range(1, small + ks[r] + 1):
+                    W[1 + small + r][c] = mult[r]
+            order = list(range(1, n - 1))
+            rng.shuffle(order)
+            Wsh = [W[0]] + [W[i] for i in order] + [W[n - 1]]
+            locks = [0] * (n - 1) + [1]
+            st_eq = mk_state(n)
+            gen = np.random.default_rng(12345)
+            st_eq.rgen = gen
+            before = gen.bit_generator.state["state"]["state"]
+            P, exc = real_inf(st_eq, Wsh, locks)
+            eq_cases += 1
+            ctx.count(("equal_block_in_mixed_W", m, rep), nontrivial=True)
+            ctx.dist(f"equal_block_in_mixed_W:{m}")
+            payload = {"kind": "inf_retis", "W": Wsh, "locks": locks, "offset": 1,
+                       "case": f"equal-weight staircase block of {m} paths next to a non-uniform block of {small}"}
+            if P is None:
+                ctx.violation(f"C02 statement fails on the implementation: inf_retis raised {exc} on a W made of a non-uniform {small}x{small} "
+                              f"block and an equal-weight {m}x{m} staircase block", payload, True)
+                continue
+            if gen.bit_generator.state["state"]["state"] != before:
+                ctx.violation(f"C02 statement fails on the implementation: computing P for an equal-weight block of {m} paths (closed form, exact) "
+                              "consumed random numbers of the scheduler's generator: the block went to the Monte-Carlo estimate", payload, True)
+                continue
+            tot = stair_perm(ks)
+            worst, where = 0.0, None
+            for a in range(m):
+                ra = order.index(1 + small + a) + 1
+                for b in range(m):
+                    if b < ks[a]:
+                        minor = [k - 1 if k > b else k for j, k in enumerate(ks) if j != a]
+                        ref = Fr(stair_perm(minor), tot)
+                    else:
+                        ref = Fr(0)
+                    err = abs(float(P[ra][1 + small + b]) - float(ref))
+                    if err > worst:
+                        worst, where = err, (ra, 1 + small + b, float(P[ra][1 + small + b]), float(ref))
+            stats["equal_block_max_abs_err"] = max(stats.get("equal_block_max_abs_err", 0.0), worst)
+            if worst > 1e-9:
+                ctx.violation(f"C02 statement fails on the implementation: an equal-weight block of {m} paths differs from the permanent ratios by "
+                              f"{worst:.2e} (P[{where[0]}][{where[1]}] = {where[2]:.6f}, exact {where[3]:.6f}); the closed form is exact for every size",
+                              dict(payload, max_abs_err=worst), True)
+    stats["equal_blocks_in_mixed_W"] = eq_cases
+
     # ------------------------------------------------------------------ F: the P every pick of the real scheduler uses (system level)
     import repex_runs as RR
     import sysharness as H
@@ -905,7 +983,9 @@ def run(ctx):
         "matchable supports, shuffled rows, 3 lock subsets each, plus one rescaled copy; C: every method called directly on sorted "
         "blocks; D: prob after real add_traj/swap/lock sequences. A case is distinct by (matrix, locks) / request line; it is "
         "non-trivial when the idle block has a non-zero permanent (the property's domain). Model comparisons only for idle blocks "
-        "<= 7; larger ones use the exact Python permanent only.")
+        "<= 7; larger ones use the exact Python permanent only. E3: equal-weight staircase blocks of 13, 14 and 16 paths next to a "
+        "non-uniform block (W not equal-weight as a whole): exact product-formula permanents, tolerance 1e-9, and the scheduler's "
+        "generator must not be touched.")
     ctx.cov["correspondence"] = stats
     ctx.cov["trusted_base"] += [
         "extraction: ExtrOcamlBasic only; ocaml/util.ml + ocaml/c02_driver.ml",
